@@ -125,7 +125,7 @@ func checkC01(rc *Run) error {
 	if shard < 0 {
 		shard = -shard
 	}
-	cfg := fmt.Sprintf("CONSTANTS\n Level = %d\n NShards = %d\n Shard = %d\n TogEvery = %d\nINIT Init\nNEXT Next\nCHECK_DEADLOCK FALSE\n", level, nsh, shard, rc.Pick(3, 1))
+	cfg := fmt.Sprintf("CONSTANTS\n Dev = {}\n Level = %d\n NShards = %d\n Shard = %d\n TogEvery = %d\nINIT Init\nNEXT Next\nCHECK_DEADLOCK FALSE\n", level, nsh, shard, rc.Pick(3, 1))
 	g, err := runGenEval(rc, "Gen_Eval", "gen", cfg, time.Duration(rc.Pick(10, 60))*time.Minute)
 	if err != nil {
 		return err
